@@ -27,6 +27,11 @@ CHECKS = {
          'Each column is checked three ways: converted/unconverted equals the kind factor, stored value equals the raw file column (ratio x reference), and the principal dispersions square-sum to sigmav3d^2.',
          'kind table (length / velocity / ratio / unchanged) is the specification; float32 tolerance 4 ulp',
          'DESIGN.md 4/C05'),
+ 'C14': ('model_checking',
+         'explicit-state BFS over the real decompress loop (state read from the parser frame locals; transitions = next chunk length 0..remaining; every transition a real execution) + unmerged enumeration of all 2^(L-1) chunk compositions of short streams',
+         'For each stream produced by the real compress the reachable parser states (offset, _size, _pos, _partial_len, buffered bytes, bytesout, output) are enumerated completely and every transition executed; the invariant (output = completed frames, final length/bytes = payload) is evaluated in every state. Merging is validated by brute-force enumeration of every composition of mini-frame streams.',
+         'blosc codec replaced by a strict self-delimiting double; the frame locals named in the check are the whole loop state',
+         'DESIGN.md 3.5, 4/C14'),
  'C18': ('exploration',
          'complete sweep of the 65340-code input domain in three batchings and through the catalog loader; geometric oracle',
          'Whole-domain enumeration: orthonormality to 1e-12, handedness, pairwise distinctness, hemisphere covering within the 4 degree cell.',
